@@ -679,7 +679,7 @@ class SizedIterOnly(IterOnly):
         self.n = n
 
     def __len__(self):
-        return 10 ** 9 if self.n is None else self.n
+        return self.n
 
 
 def make_iter(pipe, src, mode):
@@ -1262,6 +1262,8 @@ def body(R):
             pipe = unique_counters(pipe)
             for n in ns:
                 for mode in modes:
+                    if n is None and mode.endswith("-sized"):
+                        continue        # a sized iterable has finitely many values
                     bad = check_pipeline(pipe, n, mode, stops)
                     R.case(True, {"pipeline": pipe, "n": n, "mode": mode})
                     report(R, pipe, n, mode, bad)
